@@ -251,6 +251,11 @@ def _calculate_tt_nu(
     Calculate the t-test statistic and degrees of freedom (nu)
     from the mean, variance, and N of two populations
     """
+    # the counts arrive as 64-bit integers; n**3 below would wrap
+    # around for a population of 2**21 cells or more
+    n1 = 1.0*n1
+    n2 = 1.0*n2
+
     nu_num = var1/n1 + var2/n2
     denom = np.sqrt(nu_num)
     denom = np.where(denom > 0.0, denom, 1.0e-10)
